@@ -236,7 +236,9 @@ def handle (st : St) (seq : String) (f : List String) : St × List String :=
         match o, ints [u, bv, bs, ln] with
         | "ok", some [u, bv, bs, ln] =>
           if !admissible p || bal < 0 || bor < 0 then (st, d) else
-          let e : RateEv := ⟨p, u, bv, bs⟩
+          -- the monitors speak about the TRUE utilisation borrowed/(available+borrowed) of the real inputs, not
+          -- about the number the code reports for it
+          let e : RateEv := ⟨p, (utilisation bal bor).getD u, bv, bs⟩
           let m0 := (if ln > bv then ["lend_le_borrow"] else []) ++ (if bv < 0 || bs < 0 || ln < 0 then ["nonneg"] else [])
           ({ st with rates := e :: st.rates }, d ++ mons seq (m0 ++ rateMon st.rates e))
         | _, _ => (st, d)
